@@ -33,6 +33,7 @@ import (
 // ---- fake cluster -----------------------------------------------------------
 
 type vhCall struct {
+	resource    string // version/resource the call was addressed to
 	verb        string
 	name        string
 	subresource string
@@ -59,24 +60,25 @@ func (c *vhCluster) GroupVersionResource(apiVersion, kind string) (schema.GroupV
 type vhDyn struct{ c *vhCluster }
 
 func (d *vhDyn) Resource(r schema.GroupVersionResource) dynamic.NamespaceableResourceInterface {
-	return &vhRes{c: d.c, gr: schema.GroupResource{Resource: r.Resource}}
+	return &vhRes{c: d.c, gr: schema.GroupResource{Resource: r.Resource}, res: r.Version + "/" + r.Resource}
 }
 
 type vhRes struct {
-	c  *vhCluster
-	gr schema.GroupResource
-	ns string
+	c   *vhCluster
+	gr  schema.GroupResource
+	res string
+	ns  string
 }
 
 func (r *vhRes) Namespace(ns string) dynamic.ResourceInterface {
-	return &vhRes{c: r.c, gr: r.gr, ns: ns}
+	return &vhRes{c: r.c, gr: r.gr, res: r.res, ns: ns}
 }
 
 func vhSub(s []string) string { return strings.Join(s, ",") }
 
 func (r *vhRes) Create(_ context.Context, obj *unstructured.Unstructured, _ metav1.CreateOptions, sub ...string) (*unstructured.Unstructured, error) {
 	key := r.ns + "/" + obj.GetName()
-	r.c.calls = append(r.c.calls, vhCall{verb: "create", name: key, subresource: vhSub(sub)})
+	r.c.calls = append(r.c.calls, vhCall{resource: r.res, verb: "create", name: key, subresource: vhSub(sub)})
 	if r.c.failWith == "create" {
 		return nil, apierrors.NewInternalError(context.Canceled)
 	}
@@ -89,7 +91,7 @@ func (r *vhRes) Create(_ context.Context, obj *unstructured.Unstructured, _ meta
 
 func (r *vhRes) Update(_ context.Context, obj *unstructured.Unstructured, _ metav1.UpdateOptions, sub ...string) (*unstructured.Unstructured, error) {
 	key := r.ns + "/" + obj.GetName()
-	r.c.calls = append(r.c.calls, vhCall{verb: "update", name: key, subresource: vhSub(sub)})
+	r.c.calls = append(r.c.calls, vhCall{resource: r.res, verb: "update", name: key, subresource: vhSub(sub)})
 	if _, ok := r.c.objects[key]; !ok {
 		return nil, apierrors.NewNotFound(r.gr, obj.GetName())
 	}
@@ -107,7 +109,7 @@ func (r *vhRes) Delete(_ context.Context, name string, opts metav1.DeleteOptions
 	if opts.PropagationPolicy != nil {
 		pol = string(*opts.PropagationPolicy)
 	}
-	r.c.calls = append(r.c.calls, vhCall{verb: "delete", name: key, subresource: vhSub(sub), propagation: pol})
+	r.c.calls = append(r.c.calls, vhCall{resource: r.res, verb: "delete", name: key, subresource: vhSub(sub), propagation: pol})
 	if r.c.failWith == "delete" {
 		return apierrors.NewInternalError(context.Canceled)
 	}
@@ -123,7 +125,7 @@ func (r *vhRes) Delete(_ context.Context, name string, opts metav1.DeleteOptions
 
 func (r *vhRes) Get(_ context.Context, name string, _ metav1.GetOptions, sub ...string) (*unstructured.Unstructured, error) {
 	key := r.ns + "/" + name
-	r.c.calls = append(r.c.calls, vhCall{verb: "get", name: key, subresource: vhSub(sub)})
+	r.c.calls = append(r.c.calls, vhCall{resource: r.res, verb: "get", name: key, subresource: vhSub(sub)})
 	if n := r.c.lingering[key]; n > 0 {
 		r.c.lingering[key] = n - 1
 		return &unstructured.Unstructured{Object: map[string]any{"metadata": map[string]any{"name": name, "namespace": r.ns}}}, nil
@@ -137,7 +139,7 @@ func (r *vhRes) Get(_ context.Context, name string, _ metav1.GetOptions, sub ...
 
 func (r *vhRes) Patch(_ context.Context, name string, pt types.PatchType, data []byte, _ metav1.PatchOptions, sub ...string) (*unstructured.Unstructured, error) {
 	key := r.ns + "/" + name
-	r.c.calls = append(r.c.calls, vhCall{verb: "patch", name: key, subresource: vhSub(sub), patchType: pt, patchBytes: string(data)})
+	r.c.calls = append(r.c.calls, vhCall{resource: r.res, verb: "patch", name: key, subresource: vhSub(sub), patchType: pt, patchBytes: string(data)})
 	if r.c.failWith == "patch" {
 		return nil, apierrors.NewInternalError(context.Canceled)
 	}
@@ -229,6 +231,21 @@ func VH_C13_execute() {
 	cl.finalizerPolls = zz.Len("finalizer_polls", 0, 1)
 	o := NewObjectPatcher(cl, log.NewNop())
 
+	// the patcher is long-lived: an earlier operation may have named the same kind in another
+	// API group/version (Event in v1 and events.k8s.io/v1), or another kind of the same version
+	earlier := zz.Len("earlier_operation", 0, 2)
+	if earlier > 0 {
+		pre := OperationSpec{Operation: CreateIfNotExists, ApiVersion: "other.io/v1", Kind: "Pod", Namespace: "ns", Name: "p0"}
+		if earlier == 2 {
+			pre.ApiVersion, pre.Kind = "v1", "Node"
+		}
+		pre.Object = map[string]any{"apiVersion": pre.ApiVersion, "kind": pre.Kind, "metadata": map[string]any{"name": "p0", "namespace": "ns"}, "v": "pre"}
+		zz.Assert(o.ExecuteOperation(NewFromOperationSpec(pre)) == nil, "earlier_operation_succeeds")
+		for _, c := range cl.calls {
+			zz.Assert(c.resource == pre.ApiVersion+"/"+strings.ToLower(pre.Kind)+"s", "operation_addresses_the_resource_of_its_own_apiversion_and_kind")
+		}
+		cl.calls = nil
+	}
 	kind := zz.Len("operation", 0, len(vhOps)-1)
 	spec := OperationSpec{Operation: vhOps[kind], ApiVersion: "v1", Kind: "Pod", Namespace: "ns", Name: "o"}
 	spec.Object = vhPod("o", "new")
@@ -241,6 +258,9 @@ func VH_C13_execute() {
 	zz.Assert(op != nil, "operation_is_built")
 	err := o.ExecuteOperation(op)
 
+	for _, c := range cl.calls {
+		zz.Assert(c.resource == "v1/pods", "operation_addresses_the_resource_of_its_own_apiversion_and_kind")
+	}
 	cur, still := cl.objects["ns/o"]
 	count := func(verb string) int {
 		n := 0
